@@ -41,10 +41,10 @@ RULE = ("random expression trees (depth<=3 quick / <=4 thorough) over Laurent po
         "coefficient), fixed (every spelling x every call shape); at the end every pair of variables is crossed with ==, != "
         "(both orders), hash, set / dict membership; pynum: +, -, *, /, **, ==, hash of two tagged numbers against CPython; "
         "TRANSLATOR (props/c07_tr.py): before the build the bodies of Poly.__init__ / zero / __len__ / __getitem__ / __setitem__ / "
-        "copy / diff / integrate / __add__ / __sub__ / __mul__ / __eq__ / __ne__ / __truediv__ and PolyMeta.__unary__ / __rbinary__ are "
+        "copy / diff / integrate / __add__ / __sub__ / __mul__ / __eq__ / __ne__ / __truediv__ / __pow__ (number exponent) / __call__ (number value) and PolyMeta.__unary__ / __rbinary__ are "
         "re-read from lazy_poly.py with ast and written as Lean definitions (Gen/C07Src.lean) that Props.C07.src_*_is_model prove equal "
-        "to the model functions; translator-selftest: 13 deliberate edits of the source text (swapped comparison, changed constants, "
-        "dropped thub, reordered statements, lost / wrong zero, union for intersection, wrong power shift) must each change the "
+        "to the model functions; translator-selftest: 23 deliberate edits of the source text (swapped comparison, changed constants, "
+        "dropped thub, reordered statements, lost / wrong zero, union for intersection, wrong power shift, and five of __pow__: exponent test, shortcut `v == 1`, `k + other`, repetition count, `self` for the last factor; five of __call__: Horner step test / formula, lost final power, shortcut on 1, ascending order) must each change the "
         "translation or be refused, layout must not, and the unchanged source must reproduce the committed file byte for byte")
 TRUSTED = [
     "source translator harness/props/c07_tr.py (method bodies of Poly / PolyMeta -> lean/ALV/Gen/C07Src.lean, proved equal to the model "
@@ -59,7 +59,7 @@ TRUSTED = [
     "distinct; the snapshot makes deleting while iterating legal), `[(key, f(A[key], B[key])) for key in set(A).intersection(B)]` = "
     "Py.interWith f A B (set order abstracted), `next(iteritems(d))` under `len(d) == 1` = head, operator.truediv and / = Py.truediv "
     "(ZeroDivisionError iff the divisor == 0), hasattr(self, '_hash') / getattr(self, '_hash', False) = the model's `hashed` flag, an int "
-    "meeting a number = PyNum.int; the definitions of ALV/Model/C07Src.lean (InitData, Py.thub, Py.truediv, Py.interWith, Py.next) are "
+    "meeting a number = PyNum.int; for __pow__: the exponent is a number of integral value (Int) and kind `ek` (int / bool / float), `other == 0` / `k * other` / `other - 1` act on the value, `v ** other` = Py.pow (ZeroDivisionError iff 0 ** negative, else the model's powNum), `[x] * count` = Py.rep (TypeError for a float count, [] for a count <= 0), `reduce(operator.mul, L + [self])` = Py.reduceMul (the object self itself for an empty L, else the left-nested product), `x.copy()` = py_copy x none; for __call__: the flag `horner` is decided per kind ('auto' / True / False), `not d` = isEmpty, `self.is_polynomial()` = isPolynomial, `self.terms()` / `self.terms(sort=True, reverse=True)` = sortAsc / sortDesc of the items (integer powers: sort='auto' sorts, the `except TypeError` handler is dead), `number ** int` = PyNum.powInt and is accepted only after a dominating `if value == 0: return` (0 ** negative raises otherwise; `value = thub(value, n)` keeps the fact), `reduce(step, pairs)` = Py.reduce1 (accepted only for a sequence known to be non-empty), nested def = lambda, `sum(gen)` = foldl (+) from the int 0; the definitions of ALV/Model/C07Src.lean (InitData, Py.thub, Py.truediv, Py.interWith, Py.next, Py.pow, Py.rep, Py.reduceMul, Py.toPowRes, Py.reduce1) are "
     "that reading; (4) that PolyMeta wires __neg__ / __pos__ / the reflected dunders to __unary__ / __rbinary__ with operator.neg / pos / "
     "add / sub / mul (AbstractOperatorOverloaderMeta: property C01's translator T1).  The differential tie runs the SAME model "
     "functions against the real class, so a wrong reading shows there",
@@ -118,9 +118,9 @@ ASSUMPTIONS = [
     "they do not enter the pool",
 ]
 MANIFEST = {
-    "technique": "source translator (harness/props/c07_tr.py: the bodies of 17 Poly / PolyMeta methods of lazy_poly.py are regenerated "
+    "technique": "source translator (harness/props/c07_tr.py: the bodies of 19 Poly / PolyMeta methods of lazy_poly.py are regenerated "
                  "into Lean definitions on every run and proved equal to the hand-written model functions, Props.C07.src_*_is_model, "
-                 "21 theorems) + Lean 4 proof (association-list model interpreted into Mathlib's Laurent polynomial ring K[T;T⁻¹]; heap "
+                 "23 theorems; __pow__ on instances satisfying the representation invariant) + Lean 4 proof (association-list model interpreted into Mathlib's Laurent polynomial ring K[T;T⁻¹]; heap "
                  "model of mutable instances with invariant / freshness / frame theorems over all histories) + "
                  "differential tie on expression trees in the exact Fraction regime and on histories of shared, mutated "
                  "and re-used objects with arguments of every numeric type; model of the zero attribute and of Python's numeric "
